@@ -1,7 +1,7 @@
 """Registry entry, manifest texts for C04."""
 
 ENTRY = {'parts': [{'scenario': 'scenarios.s_pool', 'chunk': 6}],
-         'quick': {'runs': 2500, 'budget': 55}, 'thorough': {'runs': 150000, 'budget': 1200}}
+         'quick': {'runs': 2500, 'budget': 40}, 'thorough': {'runs': 150000, 'budget': 1200}}
 
 TEXT = {'level': 'Seeded search over crash points x statuses x detection orders: 1-4 workers, jobs of every kind '
           '(apply, map, starmap, imap, imap_unordered), a worker dies at a generated tick inside an item '
